@@ -5,6 +5,8 @@ package scen
 import (
 	"fmt"
 	"sort"
+	"strconv"
+	"strings"
 	"time"
 
 	"github.com/gopcua/opcua"
@@ -23,6 +25,9 @@ type c33Q struct {
 	RefType uint32 `json:"ref_type"`
 	Sub     bool   `json:"subtypes"`
 	Mask    uint32 `json:"mask"`
+	// Custom > 0: the requested reference type is c33CustomTypes[Custom-1] (types with
+	// string / GUID / opaque / numeric ids in the added namespace, and ids of no node)
+	Custom int `json:"custom_ref_type,omitempty"`
 }
 
 type c33Run struct {
@@ -35,6 +40,25 @@ func (r *c33Run) Sample() any { return r }
 var c33RefTypes = []uint32{0, id.References, id.HierarchicalReferences, id.NonHierarchicalReferences, id.HasChild, id.Aggregates,
 	id.HasComponent, id.HasProperty, id.Organizes, id.HasSubtype, id.HasTypeDefinition, id.HasEventSource, id.HasNotifier, id.HasOrderedComponent, id.HasModellingRule, 9999}
 
+// reference types outside namespace 0: name -> how the node id is built
+var c33CustomTypes = []string{"s:FeedsInto", "s:MonitoredBy", "i:7001", "g:feeds", "b:opaque", "s:NoSuchType", "s0:NoSuchType", "i:0", "i:35"}
+
+func c33CustomID(ns uint16, spec string) *ua.NodeID {
+	kind, name, _ := strings.Cut(spec, ":")
+	switch kind {
+	case "s":
+		return ua.NewStringNodeID(ns, name)
+	case "s0":
+		return ua.NewStringNodeID(0, name)
+	case "g":
+		return ua.NewGUIDNodeID(ns, "AAAABBBB-CCDD-EEFF-0102-0123456789AB")
+	case "b":
+		return ua.NewByteStringNodeID(ns, []byte(name))
+	}
+	n, _ := strconv.Atoi(name)
+	return ua.NewNumericNodeID(ns, uint32(n))
+}
+
 var c33Masks = []uint32{0, 1, 2, 3, 4, 8, 16, 32, 64, 128, 255, 1 | 8, 2 | 32}
 
 func (r *c33Run) Setup(s *sim.Sim) {
@@ -42,7 +66,16 @@ func (r *c33Run) Setup(s *sim.Sim) {
 	s.DrawPolicy()
 	n := 30 + p.Intn(120)
 	for i := 0; i < n; i++ {
-		r.Queries = append(r.Queries, c33Q{Node: p.Intn(1 << 20), Dir: p.Intn(3), RefType: c33RefTypes[p.Intn(len(c33RefTypes))], Sub: p.Bool(), Mask: c33Masks[p.Intn(len(c33Masks))]})
+		q := c33Q{Node: p.Intn(1 << 20), Dir: p.Intn(3), RefType: c33RefTypes[p.Intn(len(c33RefTypes))], Sub: p.Bool(), Mask: c33Masks[p.Intn(len(c33Masks))]}
+		if p.Intn(4) == 0 {
+			q.Custom = 1 + p.Intn(len(c33CustomTypes))
+			q.Node = -1 - p.Intn(8) // one of the nodes that carry custom references (or are their targets)
+			if p.Intn(3) == 0 {
+				q.RefType = sim.Pick(p, uint32(id.NonHierarchicalReferences), id.References, id.Organizes, id.HierarchicalReferences)
+				q.Custom = 0 // a standard supertype of the custom types
+			}
+		}
+		r.Queries = append(r.Queries, q)
 	}
 	r.Writer = p.Bool()
 }
@@ -67,6 +100,53 @@ func (r *c33Run) Main(s *sim.Sim) {
 		f.AddRef(o, server.RefTypeIDOrganizes, true)
 		o.AddRef(f, server.RefTypeIDOrganizes, false)
 		e.ns.Objects().AddRef(f, server.RefTypeIDOrganizes, true)
+		// reference types of our own, with every kind of node id:
+		//   NonHierarchicalReferences > FeedsInto (string) > MonitoredBy (string) > opaque
+		//   Organizes > ns;i=7001 > GUID type
+		ns := e.ns.ID()
+		mkType := func(spec string) *server.Node {
+			n := server.NewFolderNode(c33CustomID(ns, spec), spec)
+			n.SetNodeClass(ua.NodeClassReferenceType)
+			e.ns.AddNode(n)
+			return n
+		}
+		feeds, monby, num, guid, opq := mkType("s:FeedsInto"), mkType("s:MonitoredBy"), mkType("i:7001"), mkType("g:feeds"), mkType("b:opaque")
+		sub := server.RefType(id.HasSubtype)
+		if ns0, err := e.srv.Namespace(0); err == nil {
+			if nh := ns0.Node(ua.NewNumericNodeID(0, id.NonHierarchicalReferences)); nh != nil {
+				nh.AddRef(feeds, sub, true)
+			}
+			if org := ns0.Node(ua.NewNumericNodeID(0, id.Organizes)); org != nil {
+				org.AddRef(num, sub, true)
+			}
+		}
+		feeds.AddRef(monby, sub, true)
+		monby.AddRef(opq, sub, true)
+		num.AddRef(guid, sub, true)
+		// nodes that carry references of those types (both directions)
+		mkRef := func(typ *server.Node, target *server.Node, fwd bool) *ua.ReferenceDescription {
+			return &ua.ReferenceDescription{ReferenceTypeID: typ.ID(), IsForward: fwd, NodeID: ua.NewExpandedNodeID(target.ID(), "", 0),
+				BrowseName: target.BrowseName(), DisplayName: target.DisplayName(), NodeClass: target.NodeClass(), TypeDefinition: target.DataType()}
+		}
+		tg := []*server.Node{e.ns.Node(e.nodeID("v0")), e.ns.Node(e.nodeID("v1")), f, o}
+		types := []*server.Node{feeds, monby, num, guid, opq}
+		for i := 0; i < 4; i++ {
+			var refs []*ua.ReferenceDescription
+			for k, typ := range types {
+				if (i+k)%2 == 0 || i == 3 {
+					refs = append(refs, mkRef(typ, tg[(i+k)%len(tg)], (i+k)%3 != 0))
+				}
+			}
+			refs = append(refs, mkRef(e.ns.Node(e.nodeID("folder")), f, false)) // a reference whose type is not a reference type at all
+			base := server.NewFolderNode(e.nodeID(fmt.Sprintf("cx%d", i)), fmt.Sprintf("cx%d", i))
+			attr := map[ua.AttributeID]*ua.DataValue{}
+			for _, a := range []ua.AttributeID{ua.AttributeIDNodeClass, ua.AttributeIDBrowseName, ua.AttributeIDDisplayName, ua.AttributeIDDescription, ua.AttributeIDEventNotifier} {
+				if v, err := base.Attribute(a); err == nil && v != nil {
+					attr[a] = v.Value
+				}
+			}
+			e.ns.AddNode(server.NewNode(e.nodeID(fmt.Sprintf("cx%d", i)), attr, refs, nil))
+		}
 	})
 	if err != nil {
 		s.Fail("HARNESS", "setup", "server", "%v", err)
@@ -144,9 +224,25 @@ func (r *c33Run) Main(s *sim.Sim) {
 	defer close(stop)
 
 	for qi, q := range r.Queries {
-		n := all[q.Node%len(all)]
+		var n *server.Node
+		if q.Node < 0 {
+			names := []string{"cx0", "cx1", "cx2", "cx3", "v0", "v1", "folder", "obj"}
+			n = byID[e.nodeID(names[(-1-q.Node)%len(names)]).String()]
+		}
+		if n == nil {
+			if q.Node < 0 {
+				q.Node = -q.Node
+			}
+			n = all[q.Node%len(all)]
+		}
 		var want []c33Key
 		reqType := ua.NewNumericNodeID(0, q.RefType)
+		allTypes := q.RefType == 0
+		if q.Custom > 0 {
+			reqType = c33CustomID(e.ns.ID(), c33CustomTypes[q.Custom-1])
+			allTypes = false
+			s.Probe("custom-reference-type-requested")
+		}
 		for _, ref := range n.VerifRefs() {
 			if ref.NodeID == nil || ref.ReferenceTypeID == nil {
 				continue // cannot be expressed in a browse result at all
@@ -166,7 +262,7 @@ func (r *c33Run) Main(s *sim.Sim) {
 				}
 			}
 			rt := ref.ReferenceTypeID.String()
-			if q.RefType != 0 && rt != reqType.String() {
+			if !allTypes && rt != reqType.String() {
 				if !q.Sub || !isSub(rt, reqType.String(), 0) {
 					continue
 				}
@@ -177,6 +273,9 @@ func (r *c33Run) Main(s *sim.Sim) {
 				if q.Mask&class == 0 {
 					continue
 				}
+			}
+			if ref.ReferenceTypeID.Namespace() != 0 {
+				s.Probe("custom-typed-reference-expected")
 			}
 			want = append(want, c33Key{rt, ref.NodeID.NodeID.String(), ref.IsForward})
 		}
@@ -215,7 +314,7 @@ func (r *c33Run) Main(s *sim.Sim) {
 			if len(extra) > 0 {
 				kind = "extra-references"
 			}
-			s.Fail("C33", "browse-mismatch", kind, "browse of %s dir=%d type=i=%d subtypes=%v mask=%d: got %d refs, want %d; extra=%v missing=%v", n.ID(), q.Dir, q.RefType, q.Sub, q.Mask, len(got), len(want), extra, missing)
+			s.Fail("C33", "browse-mismatch", kind, "browse of %s dir=%d type=%s subtypes=%v mask=%d: got %d refs, want %d; extra=%v missing=%v", n.ID(), q.Dir, reqType, q.Sub, q.Mask, len(got), len(want), extra, missing)
 			return
 		}
 	}
